@@ -105,8 +105,11 @@ def make(name, **over):
         r, c = (int(x) for x in (var or "3x5").split("x"))
         return E.Maze(generator=g["MazeGen"](num_rows=r, num_cols=c), **tl(), **over)
     if base == "MMST":
+        # `max_step` override: length of the generator's walk buffer, independent of the environment's time_limit (the default
+        # constructor couples them; a custom generator need not)
+        ms = over.pop("max_step", None)
         return E.MMST(generator=g["SplitRandomGenerator"](num_nodes=6, num_edges=8, max_degree=3, num_agents=2, num_nodes_per_agent=2,
-                                                         max_step=T if T is not None else 5), **tl(), **over)
+                                                         max_step=ms if ms is not None else (T if T is not None else 5)), **tl(), **over)
     if base == "MultiCVRP":
         return E.MultiCVRP(generator=g["MCGen"](num_customers=6, num_vehicles=2), **over)
     if base == "PacMan":
